@@ -158,10 +158,17 @@ void MainSolver::insertFormula(PTRef fla) {
 }
 
 bool MainSolver::tryAddNamedAssertion(PTRef fla, std::string const & name) {
+    std::size_t const namesBefore = getTermNamesCount();
     bool const success = tryAddTermNameFor(fla, name);
     if (not success) { return false; }
 
-    addAssertion(fla);
+    try {
+        addAssertion(fla);
+    } catch (...) {
+        // the assertion is refused (not Boolean, wrong mode): its name is not taken either
+        forgetTermNamesSince(namesBefore);
+        throw;
+    }
     return true;
 }
 
